@@ -2,7 +2,9 @@
 
 package xsync
 
-type vxSched struct{}
+type vxSched struct {
+	deadlocked bool
+}
 
 // VxPar runs fs as threads. (native cooperative scheduler: TODO)
 func VxPar(fs ...func()) {
